@@ -145,6 +145,8 @@ def check_live(ctx, funcs: typing.Iterable[FuncInfo], rule="LIVE", shared=None):
         t = strip_opt(ty.expr_type(f.module, it, env, f.cls, f))
         if mf.is_element_type(t):
           view = (unparse(it), "children", "model")
+        elif t is None:
+          view = (unparse(it), "children", "maybe-model")   # untyped: model idioms and container idioms both checked
         else:
           view = (unparse(it), "py", "py")
       if view is None:
@@ -158,7 +160,7 @@ def check_live(ctx, funcs: typing.Iterable[FuncInfo], rule="LIVE", shared=None):
       hits = []
       for st in loop.body:
         for n in [st] + list(own_nodes(st)) if not isinstance(st, (ast.FunctionDef, ast.ClassDef)) else []:
-          if isinstance(n, ast.Delete) and kind == "py":
+          if isinstance(n, ast.Delete) and kind in ("py", "maybe-model"):
             for t in n.targets:
               if isinstance(t, ast.Subscript) and unparse(t.value) == recv:
                 hits.append((n, f"del on the iterated container `{recv}`"))
@@ -167,7 +169,14 @@ def check_live(ctx, funcs: typing.Iterable[FuncInfo], rule="LIVE", shared=None):
           name = call_name(n)
           if isinstance(n.func, ast.Attribute):
             r2 = unparse(n.func.value)
-            if kind == "model":
+            if kind == "maybe-model":
+              if r2 == recv and name in ("remove_child", "push_child", "remove_children", "push_children"):
+                hits.append((n, f"`{name}` mutates the children of `{recv}` while they are iterated"))
+              if isinstance(n.func.value, ast.Name) and n.func.value.id in loopvars and name in mf.parent_mutators and not n.args and not n.keywords:
+                hits.append((n, f"`{r2}.{name}()` unlinks the loop variable from `{recv}` while its children are iterated"))
+              if r2 == recv and name in CONTAINER_MUTATORS:
+                hits.append((n, f"`{name}` mutates the iterated container `{recv}`"))
+            elif kind == "model":
               if r2 == recv and group in mf.mutators.get(name, ()):
                 hits.append((n, f"`{name}` mutates the {group} of `{recv}` while it is iterated"))
               if group == "children" and isinstance(n.func.value, ast.Name) and n.func.value.id in loopvars \
